@@ -82,8 +82,8 @@ def C01(tier):
            layout_ob("layout-returns-bk", "Harness_E_C01", shapes(3, 3) if q else shapes(4, 3), {"BK": [-1, 0, 1, 2, 3], "P2": [0, 1]},
                      consts={"P1": 0, "P4": 2, "P5": 2, "SZ": 5, "NSFIX": 10, "LSFIX": 20}, loop=96,
                      bounds="canonical edge lists x Brandes-Koepf (balanced and forced layouts 0..3) x {NS,LP}; concrete heterogeneous sizes"),
-           layout_ob("layout-returns-nspos", "Harness_E_C01", shapes(3, 3) if q else shapes(4, 3), {"P1": [0, 1]},
-                     consts={"P2": 0, "P4": 3, "P5": 2, "SZ": 2, "INTSZ": 1, "MAXSZ": 2}, loop=192, enctimeout=200,
+           layout_ob("layout-returns-nspos", "Harness_E_C01", shapes(3, 2) if q else shapes(3, 3), {"P1": [0, 1]},
+                     consts={"P2": 0, "P4": 3, "P5": 2, "SZ": 2, "INTSZ": 1, "MAXSZ": 2}, loop=192, enctimeout=nm(q, 100, 400),
                      bounds="canonical edge lists x NetworkSimplex positioner; symbolic integer sizes/spacings in 0..2 (ranks become slice indices)")]
     return dict(obligations=obs)
 
@@ -122,8 +122,8 @@ def C04(tier):
     obs = [layout_ob("layout-no-overlap", "Harness_E_C04", sh, {"P4": [4, 1, 5], "P1": [0, 1], "P2": [0, 1]},
                      consts={"P5": 0, "SZ": 2},
                      bounds="all canonical edge lists N<=%d M<=%d x {SinkColoring,VAlign,PackRight} x {greedy,dfs} x {NS,LP}; %s" % (N, M, SYMB)),
-           layout_ob("layout-no-overlap-nspos", "Harness_E_C04", shapes(3, 3) if q else shapes(4, 3), {"P1": [0, 1]},
-                     consts={"P2": 0, "P4": 3, "P5": 0, "SZ": 2, "INTSZ": 1, "MAXSZ": 2}, loop=192, enctimeout=200,
+           layout_ob("layout-no-overlap-nspos", "Harness_E_C04", shapes(3, 2) if q else shapes(3, 3), {"P1": [0, 1]},
+                     consts={"P2": 0, "P4": 3, "P5": 0, "SZ": 2, "INTSZ": 1, "MAXSZ": 2}, loop=192, enctimeout=nm(q, 100, 400),
                      bounds="canonical edge lists x NetworkSimplex positioner; symbolic integer W,H,spacings in 0..2"),
            layout_ob("layout-no-overlap-nspos-concrete", "Harness_E_C04", shapes(3, 3) if q else shapes(4, 4), {"P1": [0, 1]},
                      consts={"P2": 0, "P4": 3, "P5": 0, "SZ": 5, "INTSZ": 1, "NSFIX": 10, "LSFIX": 20}, loop=192,
@@ -307,3 +307,50 @@ REG = {"C01": C01, "C02": C02, "C03": C03, "C04": C04, "C05": C05, "C06": C06, "
 def get(prop, tier):
     f = REG.get(prop)
     return f(tier) if f else None
+
+
+def corridors(K, grid, heights):
+    """all well-formed corridors of K stacked rectangles with left/right edges on 0..grid: l<r and consecutive
+    rectangles share a boundary segment of positive length"""
+    ivs = [(l, r) for l in range(grid + 1) for r in range(l + 1, grid + 1)]
+    out = []
+
+    def rec(cur):
+        if len(cur) == K:
+            out.append(list(cur))
+            return
+        for iv in ivs:
+            if cur and not (max(cur[-1][0], iv[0]) < min(cur[-1][1], iv[1])):
+                continue
+            cur.append(iv)
+            rec(cur)
+            cur.pop()
+
+    rec([])
+    cubes = []
+    for c in out:
+        for hs in heights:
+            if len(hs) < K:
+                continue
+            cube = {"K": K, "y[0]": 0}
+            y = 0
+            for i in range(K):
+                y += hs[i]
+                cube["y[%d]" % (i + 1)] = y
+                cube["l[%d]" % i] = 10 * c[i][0]
+                cube["r[%d]" % i] = 10 * c[i][1]
+            cubes.append(cube)
+    return cubes
+
+
+def C19(tier):
+    q = tier == "quick"
+    cubes = corridors(1, 2, [[20]]) + corridors(2, 3, [[20, 20], [10, 30]]) + (corridors(3, 2, [[20, 20, 20]]) if q else corridors(3, 3, [[20, 20, 20], [10, 30, 20]]))
+    obs = [dict(name="shortest-open", pkg="internal/geom", func="Harness_C19", consts={"OPEN": 1, "PANICS": 1}, cubes=cubes, enctimeout=300, qtimeout=120, loop=48,
+                bounds="all well-formed corridors of 1..3 rectangles with edges on a %s grid (x10), heights {20,20,20}%s; symbolic: x of the start point on the top "
+                       "side of the first and of the end point on the bottom side of the last rectangle, strictly between the corners (as phase5 calls it); "
+                       "panic sites included" % (nm(q, "0..3 / 0..2", "0..3"), nm(q, "", " and {10,30,20}")))]
+    return dict(obligations=obs)
+
+
+REG["C19"] = C19
